@@ -25,6 +25,7 @@ import (
 	"github.com/influxdata/influxdb"
 	"github.com/influxdata/influxdb/logger"
 	"github.com/influxdata/influxdb/pkg/httputil"
+	"github.com/influxdata/influxdb/pkg/verifhook"
 	internal "github.com/influxdata/influxdb/services/meta/internal"
 	"github.com/influxdata/influxql"
 	"go.uber.org/zap"
@@ -761,6 +762,9 @@ func (c *Client) Authenticate(username, password string) (User, error) {
 	if userInfo == nil {
 		return nil, ErrUserNotFound
 	}
+	if verifhook.Enabled {
+		verifhook.Emit("meta.auth.user", username)
+	}
 
 	// Check the local auth cache first.
 	c.mu.RLock()
@@ -782,6 +786,9 @@ func (c *Client) Authenticate(username, password string) (User, error) {
 	// Compare password with user hash.
 	if err := bcrypt.CompareHashAndPassword([]byte(userInfo.Hash), []byte(password)); err != nil {
 		return nil, ErrAuthenticate
+	}
+	if verifhook.Enabled {
+		verifhook.Emit("meta.auth.insert", username)
 	}
 
 	// generate a salt and hash of the password for the cache
